@@ -24,6 +24,9 @@ CHECKS = {
  "C13": ("operation-history search (E2): every insertion sequence up to depth d over 34 intervals (nanosecond timeline) and every insertion order of fixed interval sets, on the real TemporalStore and IntervalTree, all queries compared with a pointwise integer model; then Coalesce and its invariants",
          "bounded-exhaustive: every history in scope is replayed on a fresh store; every point, range and scan query, ContainsAt, counts, Add results and limit errors are compared with the model, then Coalesce is applied and instants-preserved / disjoint-non-adjacent / count are checked",
          "integer interval model; the limit-before-duplicate order of Add is accepted as documented; hash-colliding atoms attributed to known finding F8", "4 C13"),
+ "C07": ("exhaustive law checking over full products of small argument domains (E1): 7 law families (constructor/accessor inverses, map/struct, ring, div/mod, orders, strings/names, reducers under all row permutations) on the real functional/builtin entry points",
+         "bounded-exhaustive: every argument tuple of the stated domains is evaluated by functional.EvalApplyFn / EvalReduceFn / builtin.Decide and compared with an independent computation (math/big, Go strings, plain folds)",
+         "domains: 11 boundary int64 values, 6 elements, lists up to length 3, maps/structs up to 2-3 entries in every argument order, 8 strings, 5 names, all permutations of all multisets of <=4 rows; duplicate-key maps outside the law", "4 C07"),
 }
 NOT_APPLICABLE = {
 }
